@@ -24,10 +24,23 @@ func init() {
 		Level: "exploration",
 		Cases: func(tier string) int { return vlib.TierN(tier, 448, 168000) },
 		Rule: "case idx runs class idx%7 of {message/equals, message/copy, cqrs/json, cqrs/proto, cqrs/gogo, forwarder, reply} on a batch of generated inputs " +
-			"(counter `inputs`; 7 hand-written small pairs + 48 messages x 14 pair mutations for equals, 64 messages for copy, 64 values per marshaler case, 24 messages through one real Forwarder, 64 replies). " +
-			"Strings (UUID, metadata keys/values, topics, struct fields, error texts) come from a valid-UTF-8 generator (empty, control, quotes, multi-byte, astral, up to 600 runes); " +
+			"(counter `inputs`; 7 hand-written small pairs + 48 messages x 14 pair mutations for equals, 64 messages for copy, 64 values + a fixed 16-step size ladder (encodings of 0..9000 bytes growing and shrinking through 4 KiB, marshaled back to back, all messages held) per marshaler case, 24 messages through one real Forwarder, 64 replies). " +
+			"Strings (UUID, metadata keys/values, topics, struct and protobuf string fields, map keys, custom names, error texts) come from a valid-UTF-8 generator: 7 of 10 uniform over a rune pool " +
+			"(empty, control, quotes, multi-byte, astral, up to 600 runes), 3 of 10 'hostile' texts built from a corpus of ~300 fragments in 8 kinds that any re-interpretation of the text on the way would alter " +
+			"(printf verbs/flags/%%/trailing %/URL-escapes; backslash sequences as text and quotes; HTML/XML/JSON specials <>& entities U+2028/9 and texts that are JSON documents; NUL, control, line breaks, ANSI; " +
+			"Unicode and ASCII whitespace; template/shell/regexp/SQL/path/URL syntax and separators; texts that parse as numbers/bools/null/base64/reserved metadata keys; normalisation/case-folding/bidi variants and UTF-8 range borders), " +
+			"bare, inside ordinary text, at the start/end, concatenated, repeated, quoted, with whitespace at the edges, long (255..8193 bytes) and very long (64 KiB..128 KiB) (counters `strings_with_*`, `strings_longer_*`). " +
+			"Besides the random draws every class walks through the fragment corpus deterministically (counter `corpus_sweep_strings`): every 4th input (every 2nd forwarder message and batch topic) carries the next fragment " +
+			"- bare, then inside text, then at the end of a text - in a rotating role (UUID / metadata key / metadata value; topic; typed string field / map key+value / untyped slot / list element / bare string value; " +
+			"protobuf StringValue / Struct / FieldMask / Any; reply error text (errors.New, custom error type, %w-wrapped) / reply result), so in the quick tier (64 cases per class) each fragment is seen at least once per class and role group. " +
 			"payloads are nil / empty / random bytes. Equals pairs differ from the base message in exactly one component (uuid, payload byte/length, nil-vs-empty payload, one value, " +
-			"one key renamed with the same value (incl. empty value), key with empty value present vs absent, extra key, value swap, nil-vs-empty metadata) or not at all (independent rebuild). " +
+			"one key renamed with the same value (incl. empty value), key with empty value present vs absent, extra key, value swap, nil-vs-empty metadata) or not at all (independent rebuild); changed strings include near-misses " +
+			"(appended/prepended whitespace, NUL, %, backslash, quote, combining mark, case change, one round of %%/backslash/HTML/URL escaping applied). " +
+			"The JSON family has a statically typed part (scalars incl. int64/uint64 extremes, bytes, optional pointers, nested slices/maps, time, named command, KiB-sized blob, embedded struct, arrays, int-keyed maps, float32, `,string`, " +
+			"keys differing only in case, pointer to pointer, slices of pointers with nil elements) and a part with UNTYPED slots (3 of 10 values): interface{} fields, map[string]interface{}, []interface{}, map[string][]interface{}, " +
+			"map[string]map[string]interface{} at depth <= 4, also as the top-level value (*map[string]interface{}, *[]interface{}, *interface{}), holding only fixed points of encoding/json " +
+			"(nil, bool, finite float64 incl. integral/huge/-0, string, non-nil nested maps/slices; counters `untyped_slot_*`, `values_with_numbers_in_untyped_slots`); the same types are used as request-reply results. " +
+			"Every generated JSON value is first round-tripped through encoding/json alone; a value that is not a fixed point there is a harness error. On a mismatch the first differing path with both dynamic types is reported. " +
 			"A case is non-trivial when its batch contained non-empty metadata / multi-byte or control strings / non-empty binary payloads (per class) and at least one expected-true and " +
 			"one expected-false comparison (equals) resp. at least one metadata edit (copy) resp. at least one non-zero value (codecs); distinct = hash of (class, generated inputs).",
 		Assumptions: []string{
@@ -35,6 +48,9 @@ func init() {
 			"payload equality is equality of the byte strings: nil and empty payloads coincide; nil and empty metadata have the same (empty) key/value set",
 			"Copy shares the payload slice by design (godoc: only metadata ownership is promised), so payload aliasing is not checked",
 			"JSON values are compared with reflect.DeepEqual on types whose encoding/json round-trip is exact (finite floats, UTC times without monotonic reading); protobuf values with proto.Equal (no NaN)",
+			"the family of JSON-serialisable types is the set of values that encoding/json (the codec both JSON marshalers are documented to use) maps to themselves: in interface{} slots only nil, bool, float64, string, " +
+				"non-nil []interface{} and map[string]interface{} (what json.Unmarshal stores in an interface value per its godoc) - no ints, no NaN/Inf, no nil maps/slices, no structs in untyped slots",
+			"the text of a reply error is err.Error() of the handler error; its Go type is not expected to survive",
 		},
 		Run: run,
 	})
@@ -82,7 +98,8 @@ func panicIfHarness(r any) {
 // ---------------------------------------------------------------------------------------------------------
 // generators
 
-// genStr returns a valid-UTF-8 string: mostly short, sometimes long.
+// genStr returns a valid-UTF-8 string: uniform over a rune pool (mostly short, sometimes long) or, in 3 of 10 draws, a
+// "hostile" text (strings.go): printf verbs, backslashes, quotes, HTML/JSON specials, NUL, edge whitespace, very long.
 func genStr(r *vlib.Rand) string {
 	var s string
 	switch r.Intn(20) {
@@ -90,6 +107,8 @@ func genStr(r *vlib.Rand) string {
 		s = r.UTF8(600)
 	case 1, 2:
 		s = r.UTF8(40)
+	case 3, 4, 5, 6, 7, 8:
+		s = hostileStr(r)
 	default:
 		s = r.UTF8(6)
 	}
@@ -281,12 +300,16 @@ func metaOrNil(s msgSpec) map[string]string {
 	return s.Meta
 }
 
-// features of a string set, used for non-triviality and signatures
+// features of a string set, used for non-triviality, counters and signatures
 type feat struct {
 	multibyte, control, empty, long bool
+	// numbers of strings by hostile kind (strings.go)
+	n, nPercent, nTrailingPercent, nQuoteBackslash, nMarkup, nNUL, nEdgeSpace, nTemplate, nLong4k, nLong64k int
 }
 
 func (f *feat) addStr(s string) {
+	f.n++
+	f.classify(s)
 	if s == "" {
 		f.empty = true
 	}
